@@ -10,12 +10,13 @@ import fam_l
 from vlib import Inconclusive, build_harness, log, run, run_tlc, stage_spec, validate_traces, write_mc
 
 P_OPS = {
+    "C18": ["C18_NoClearLinks", "C18_SameKeyRecovers", "C18_OtherKeyGetsNothing"],
     "C07": ["C07_OriginalVerifies", "C07_TamperEvident", "C07_SignatureBound"],
     "C08": ["C08_RoundTrip", "C08_Canonical", "C08_Deterministic", "C08_PinnedVectors"],
     "C12": ["C12_NoPanic"],
 }
-M_OPS = {"C07": ["M_SigningView"], "C08": [], "C12": []}
-KINDS = {"C07": "c07,c07sig", "C08": "c08,vector", "C12": "c12,raw"}
+M_OPS = {"C07": ["M_SigningView"], "C08": [], "C12": [], "C18": []}
+KINDS = {"C07": "c07,c07sig", "C08": "c08,vector", "C12": "c12,c12enc,raw", "C18": "c18"}
 
 
 def export_obligations(specdir, tier, prop):
@@ -101,6 +102,8 @@ def run_family_d(prop, tier, seed, report, scratch):
                 report.add_drift("%s (field %s)" % (op, ob.get("f")))
                 continue
             desc = {"operator": op, "kind": rec.get("k")}
+            if rec.get("k") == "c08":
+                desc["ident"] = ob.get("ident")
             if rec.get("k") == "c07":
                 desc.update({"field": ob.get("f"), "signing_view_collision": payload_collapse(ob)})
             elif rec.get("k") == "c07sig":
@@ -108,6 +111,10 @@ def run_family_d(prop, tier, seed, report, scratch):
             elif rec.get("k") == "c08":
                 desc.update({"payload": ob.get("payload"), "codec": ob.get("codec"), "diff": rec.get("diff"),
                              "next": ob.get("next"), "refs": ob.get("refs")})
+            elif rec.get("k") == "c12enc":
+                desc.update({"enc_field": ob.get("f"), "dev": ob.get("d"), "where": (rec.get("where") or "")[:60]})
+            elif rec.get("k") == "c18":
+                desc.update({"nnext": ob.get("nnext"), "nrefs": ob.get("nrefs"), "clear": rec.get("clear"), "nlinks": rec.get("nlinks")})
             elif rec.get("k") == "c12":
                 desc.update({"obj": ob.get("obj"), "devs": sorted("%s:%s" % (d["f"], d["d"]) for d in ob.get("devs", [])),
                              "where": (rec.get("where") or "")[:60]})
